@@ -96,6 +96,16 @@ class ScriptedDist:
         return np.array(v)
 
 
+class ReplayDist:
+    """replays the perturbation vectors logged by a ScriptedDist (for re-running the same history)"""
+
+    def __init__(self, log):
+        self.q = [list(v) for v in log]
+
+    def rvs(self, size, random_state):
+        return np.array(self.q.pop(0))
+
+
 # ----------------------------------------------------------------------------
 # exact helpers (oracle side: plain ints / Fractions, no model involved)
 
@@ -599,6 +609,51 @@ def fp_family(ctx, cases, n_cases):
                   "x0": x0, "x1": x1, "randint_scalars": rec.log_ri, "perturbations": perts}
         As = (A0, A1)
         rows = (r0, r1)
+        if use_play and T >= 2:
+            # multi-period play(num_reps, t_init) judged (a) by the literal definition chained period by period in
+            # exact arithmetic (smallest tie-breaking; skipped when a payoff gap sits on the tol threshold), and
+            # (b) against the composition of one-period plays and the matching time_series row fed the same draws
+            ctx.count("fp:play-multi-period")
+            if not rnd:
+                cur = [[F(v) for v in x0], [F(v) for v in x1]]
+                fragile = False
+                for j in range(T - 1):
+                    gam = F(1) / (t_init + j + 2) if gain is None else F(gain)
+                    bs = []
+                    for i in (0, 1):
+                        pv = matvec(As[i], cur[1 - i])
+                        if sfp:
+                            pv = [a_ + F(b_) for a_, b_ in zip(pv, perts[2 * j + i])]
+                        m = max(pv)
+                        if any(abs((m - v) - Fraction(TOL)) < Fraction(1, 10 ** 10) for v in pv):
+                            fragile = True
+                        bs.append(br_set_exact(pv)[0])
+                    cur = [[(1 - gam) * v + (gam if q == bs[i] else 0) for q, v in enumerate(cur[i])] for i in (0, 1)]
+                if fragile:
+                    ctx.count("fp:play-definition-skipped(threshold)")
+                else:
+                    ctx.count("fp:play-final-judged-by-definition")
+                    err = max(abs(F(a_) - b_) for i in (0, 1) for a_, b_ in zip(rows[i][-1], cur[i]))
+                    if err > Fraction(1, 10 ** 9):
+                        ctx.spec_fail("fp_play_transition", "play(num_reps=%d, t_init=%d) differs from the definition chained "
+                                      "period by period by %s" % (T - 1, t_init, float(err)), replay)
+            try:
+                mk = (lambda d: StochasticFictitiousPlay(g, distribution=d, gain=gain)) if sfp else (lambda d: FictitiousPlay(g, gain=gain))
+                o2, rec2 = mk(ReplayDist(perts)), Rec(1, ri=list(rec.log_ri) or None)
+                cur = init
+                for j in range(T - 1):
+                    cur = o2.play(actions=cur, num_reps=1, t_init=t_init + j, tie_breaking=tb, random_state=rec2)
+                o3, rec3 = mk(ReplayDist(perts)), Rec(1, ri=list(rec.log_ri) or None)
+                ts = o3.time_series(T, init_actions=init, t_init=t_init, tie_breaking=tb, random_state=rec3)
+                ctx.count("fp:play-vs-composition-checks")
+                same = all(np.array_equal(np.asarray(cur[i]), np.asarray(rows[i][-1])) and
+                           np.array_equal(ts[i][-1], np.asarray(rows[i][-1])) for i in (0, 1))
+                if not same or rec2.log_ri != rec.log_ri or rec3.log_ri != rec.log_ri:
+                    ctx.spec_fail("fp_play_composition", "multi-period play() differs from the composition of one-period "
+                                  "plays / the time_series row: %s vs %s vs %s"
+                                  % ([r[-1] for r in rows], [list(map(float, c)) for c in cur], [t_[-1].tolist() for t_ in ts]), replay)
+            except Exception as e:
+                ctx.spec_fail("fp_exception", "one-period play chain raised %s: %s" % (type(e).__name__, e), replay)
         bad = False
         for j in range(len(r0)):
             for i in (0, 1):
@@ -744,10 +799,53 @@ def fpn_family(ctx, cases, n_cases):
 # ----------------------------------------------------------------------------
 # LocalInteraction
 
+def li_reach(A, adj, n, start, revs_list, rnd, tol, cap=20000):
+    """the literal definition, period by period: the set of profiles reachable from the profiles in `start`
+    when, in every period, each player of the revising list best-responds (row i of the adjacency, profile at
+    the START of the period, documented tie rule: smallest index / any best response) — exact Fractions.
+    Returns None if the set grows beyond `cap` (random tie-breaking on long runs)."""
+    N = len(adj)
+    cur = set(tuple(p) for p in start)
+    for rv in revs_list:
+        nxt = set()
+        for prof in cur:
+            choices = []
+            for i in rv:
+                cnt = [sum(F(adj[i][j]) for j in range(N) if prof[j] == c) for c in range(n)]
+                S = br_set_exact(matvec(A, cnt), Fraction(tol))
+                choices.append(S if rnd else S[:1])
+            for combo in itertools.product(*choices):
+                new = list(prof)
+                for i, b in zip(rv, combo):
+                    new[i] = b
+                nxt.add(tuple(new))
+            if len(nxt) > cap:
+                return None
+        cur = nxt
+    return cur
+
+
+# fixed LocalInteraction scenarios run first (multi-period play() with revisers whose player index differs from
+# their position in the revising set, on the library's test game and a weighted directed graph)
+LI_FIXED = [
+    {"A": [[4, 0], [2, 3]], "adj": [[0, 1, 3], [2, 0, 1], [3, 2, 0]], "acts": [1, 0, 0], "mode": "play-nested",
+     "seq": [2, 0, 0, 1], "tb": "smallest"},
+    {"A": [[4, 0], [2, 3]], "adj": [[0, 1, 3], [2, 0, 1], [3, 2, 0]], "acts": [1, 0, 0], "mode": "play-nested",
+     "seq": [[1, 2], 0, [2], 1, [0, 2]], "tb": "smallest"},
+    {"A": [[4, 0], [2, 3]], "adj": [[0, 1, 3], [2, 0, 1], [3, 2, 0]], "acts": [0, 1, 1], "mode": "play-nested",
+     "seq": [1, 2, 0, 2, 1, 0], "tb": "random"},
+    {"A": [[4, 0], [2, 3]], "adj": [[0, 1, 3], [2, 0, 1], [3, 2, 0]], "acts": [1, 0, 0], "mode": "ts-nested",
+     "seq": [[2, 0], 1, [0, 1], 2], "tb": "smallest"},
+    {"A": [[4, 0], [2, 3]], "adj": [[0, 1, 3], [2, 0, 1], [3, 2, 0]], "acts": [1, 1, 0], "mode": "play-sim",
+     "T": 5, "tb": "smallest"},
+]
+
+
 def li_family(ctx, cases, n_cases):
     from quantecon.game_theory import LocalInteraction
     rng = ctx.rng
-    for ci in range(n_cases):
+    for ci in range(-len(LI_FIXED), n_cases):
+        fixed = LI_FIXED[ci + len(LI_FIXED)] if ci < 0 else None
         n = rng.randint(1, 4)
         N = rng.choice([1, 2, 3, 4, 5, 6, 6, 5])
         A = rand_payoff(rng, n, kind=rng.choice([0, 2, 4, 4, 1, 3, 2, 4]))
@@ -765,20 +863,31 @@ def li_family(ctx, cases, n_cases):
         kw = {} if tol_opt is None else {"tol": tol_opt}
         if tol_opt is not None:
             ctx.count("li:tol-option")
-        mode = rng.choice(["sim", "async-inject", "async-record", "play-nested", "play-sim"])
-        ctx.count("li:" + mode)
+        mode = rng.choice(["sim", "async-inject", "async-record", "play-nested", "play-nested", "play-sim", "ts-nested"])
         seq = None
         if mode == "async-inject":
             seq = [rng.randrange(N) for _ in range(T)]
-        elif mode == "play-nested":
-            # play(): a sequence whose entries are single players or lists of players revising together
+        elif mode in ("play-nested", "ts-nested"):
+            # a sequence whose entries are single players or lists of players (not necessarily sorted)
             seq = []
             for _ in range(min(T, 12)):
                 if rng.random() < 0.5:
                     seq.append(rng.randrange(N))
                 else:
-                    seq.append(sorted(rng.sample(range(N), rng.randint(1, N))))
+                    seq.append(rng.sample(range(N), rng.randint(1, N)))
         init_none = rng.random() < 0.15
+        if fixed is not None:
+            A, adj, acts, mode, tb = fixed["A"], fixed["adj"], list(fixed["acts"]), fixed["mode"], fixed["tb"]
+            n, N, rnd, seq, T = len(A), len(adj), tb == "random", fixed.get("seq"), fixed.get("T", 6)
+            if seq is not None:
+                T = len(seq) + (1 if mode == "ts-nested" else 0)
+            init_none, tol_opt, tol, kw = False, None, TOL, {}
+            li = LocalInteraction(A, adj)
+            rec = Rec(12345)
+            ctx.count("li:fixed-scenarios")
+        if mode == "ts-nested":
+            T = len(seq) + 1
+        ctx.count("li:" + mode)
         acts_arg = None if init_none else tuple(acts)
         try:
             if mode == "sim":
@@ -791,6 +900,9 @@ def li_family(ctx, cases, n_cases):
             elif mode == "play-sim":
                 out = li.play(revision="simultaneous", actions=acts_arg, num_reps=min(T, 12) - 1, tie_breaking=tb,
                               random_state=rec, **kw)
+            elif mode == "ts-nested":
+                out = li.time_series(T, revision="asynchronous", actions=acts_arg, player_ind_seq=seq,
+                                     tie_breaking=tb, random_state=rec, **kw)
             else:
                 out = li.play(revision="asynchronous", actions=acts_arg, player_ind_seq=seq, tie_breaking=tb,
                               random_state=rec, **kw)
@@ -815,6 +927,15 @@ def li_family(ctx, cases, n_cases):
             revs = [list(range(N))] * (min(T, 12) - 1)
             rows = None
             final = [int(v) for v in out]
+        elif mode == "ts-nested":
+            # what the code does: time_series hands entry t to play() as a *sequence*, so a list entry [i, j]
+            # is revised one player after the other inside period t (NOT simultaneously)
+            periods = [[[p]] if isinstance(p, int) else [[q] for q in p] for p in seq[:T - 1]]
+            revs = [r for per in periods for r in per]
+            bounds = [0]
+            for per in periods:
+                bounds.append(bounds[-1] + len(per))
+            rows = [[int(v) for v in r] for r in out]
         else:
             revs = [[p] if isinstance(p, int) else list(p) for p in seq]
             rows = None
@@ -839,6 +960,59 @@ def li_family(ctx, cases, n_cases):
             for i in range(N):
                 if i not in touched and final[i] != acts[i]:
                     ctx.spec_fail("li_async_untouched", "player %d never revised but changed" % i, replay)
+            # the final profile judged by the literal definition applied period by period
+            reach = li_reach(A, adj, n, [acts], revs, rnd, tol)
+            if reach is None:
+                ctx.count("li:play-oracle-skipped(set too large)")
+            else:
+                ctx.count("li:play-final-judged-by-definition")
+                if len(revs) >= 2:
+                    ctx.count("li:play-multi-period")
+                if tuple(final) not in reach:
+                    ctx.spec_fail("li_play_transition",
+                                  "play(%s) from %s over revisers %s returned %s; the definition applied period by "
+                                  "period allows %s" % (mode, acts, revs, final, sorted(reach)[:4]), replay)
+            # multi-period play() == composition of one-period plays == matching time_series row
+            if not rnd and not init_none:
+                try:
+                    cur = tuple(acts)
+                    for rv in revs:
+                        cur = li.play(revision="asynchronous", actions=cur, player_ind_seq=[list(rv)],
+                                      tie_breaking=tb, **kw)
+                    comp = [int(v) for v in cur]
+                    ts = None
+                    if all(len(rv) == 1 for rv in revs):
+                        ts = li.time_series(len(revs) + 1, revision="asynchronous", actions=tuple(acts),
+                                            player_ind_seq=[rv[0] for rv in revs], tie_breaking=tb, **kw)
+                    elif mode == "play-sim":
+                        ts = li.time_series(len(revs) + 1, revision="simultaneous", actions=tuple(acts),
+                                            tie_breaking=tb, **kw)
+                    ctx.count("li:play-vs-composition-checks")
+                    if comp != final or (ts is not None and [int(v) for v in ts[-1]] != final):
+                        ctx.spec_fail("li_play_composition",
+                                      "multi-period play() = %s, composition of one-period plays = %s, time_series row = %s"
+                                      % (final, comp, None if ts is None else ts[-1].tolist()), replay)
+                except Exception as e:
+                    ctx.spec_fail("li_exception", "one-period play / time_series raised %s: %s" % (type(e).__name__, e), replay)
+            continue
+        if mode == "ts-nested":
+            def cmp_bounds(mo, impl, bounds=bounds):
+                try:
+                    body, rest = mo.split("|")
+                    rws = body.split(";")
+                    return None if ";".join(rws[b] for b in bounds) + "|" + rest == impl else "trajectory differs"
+                except Exception as e:
+                    return "unparsable: %s" % e
+            cases.append(Case(line, "%s|1" % intm(rows), nontrivial=(n >= 2 and N >= 2), cmp=cmp_bounds, tag="li:ts-nested"))
+            for t in range(T - 1):
+                reach = li_reach(A, adj, n, [rows[t]], periods[t], rnd, tol)
+                if reach is not None and tuple(rows[t + 1]) not in reach:
+                    ctx.spec_fail("li_transition", "time_series period %d with entry %s: %s -> %s, sequential revision "
+                                  "of the entry allows %s" % (t, seq[t], rows[t], rows[t + 1], sorted(reach)[:4]), replay)
+                    break
+                sim = li_reach(A, adj, n, [rows[t]], [[q for r_ in periods[t] for q in r_]], rnd, tol)
+                if len(periods[t]) > 1 and sim is not None and tuple(rows[t + 1]) not in sim:
+                    ctx.count("li:ts-list-entry-sequential-differs-from-simultaneous(observation)")
             continue
         cases.append(Case(line, "%s|1" % intm(rows), nontrivial=(n >= 2 and N >= 2 and T >= 3), tag="li:" + mode))
         # ---- spec oracle -------------------------------------------------------------------
@@ -974,6 +1148,20 @@ def logit_family(ctx, cases, n_cases):
             got_seq = [final]
             if final != orc[-1]:
                 ctx.spec_fail("logit_transition", "play() result %s, inverse-cdf definition gives %s" % (final, orc[-1]), replay)
+            # multi-period play() == composition of one-period plays == matching time_series row (same uniforms)
+            try:
+                rec2 = Rec(1, us=list(us_used))
+                cur = tuple(acts)
+                for p_ in ps_used:
+                    cur = ld.play(init_actions=cur, player_ind_seq=[p_], random_state=rec2)
+                rec3 = Rec(1, ps=list(ps_used) + [0], us=list(us_used) + [0.0])
+                ts = ld.time_series(len(ps_used) + 1, init_actions=tuple(acts), random_state=rec3)
+                ctx.count("logit:play-vs-composition-checks")
+                if [int(v) for v in cur] != final or [int(v) for v in ts[-1]] != final:
+                    ctx.spec_fail("logit_play_composition", "play() = %s, composition of one-period plays = %s, "
+                                  "time_series row = %s" % (final, list(cur), ts[-1].tolist()), replay)
+            except Exception as e:
+                ctx.spec_fail("logit_exception", "one-period play chain raised %s: %s" % (type(e).__name__, e), replay)
         else:
             def cmp_rows(mo, impl):
                 return None if ";".join(mo.split(";")[:-1]) == impl else "trajectory differs"
